@@ -119,6 +119,8 @@ def _always_returns(block: list[ast.stmt]) -> bool:
         return _always_returns(last.body) and _always_returns(last.orelse)
     if isinstance(last, (ast.With, ast.AsyncWith)):
         return _always_returns(last.body)
+    if isinstance(last, ast.Try) and not last.finalbody and not last.orelse:
+        return _always_returns(last.body) and all(_always_returns(h.body) for h in last.handlers)
     return False
 
 
@@ -137,6 +139,13 @@ def _returns_in_tail_position(block: list[ast.stmt]) -> bool:
                 return False
         elif isinstance(st, (ast.With, ast.AsyncWith)):
             if i != len(block) - 1 or not _returns_in_tail_position(st.body):
+                return False
+        elif isinstance(st, ast.Try):
+            # `try: return a  except E: ...; return b` as the last statement of the block
+            if i != len(block) - 1 or st.finalbody or st.orelse:
+                return False
+            if not _returns_in_tail_position(st.body) or not all(
+                    _returns_in_tail_position(h.body) for h in st.handlers):
                 return False
         elif isinstance(st, (ast.FunctionDef, ast.AsyncFunctionDef, ast.ClassDef)):
             continue
@@ -680,6 +689,13 @@ class Normaliser:
             if has_ret and isinstance(st, (ast.With, ast.AsyncWith)):
                 w = clone(st)
                 w.body = self._to_sink(st.body, sink, budget) or [ast.Pass()]
+                out.append(w)
+                return out
+            if has_ret and isinstance(st, ast.Try):
+                w = clone(st)
+                w.body = self._to_sink(st.body, sink, budget) or [ast.Pass()]
+                for h_new, h_old in zip(w.handlers, st.handlers):
+                    h_new.body = self._to_sink(h_old.body, sink, budget) or [ast.Pass()]
                 out.append(w)
                 return out
             out.append(st)
